@@ -283,6 +283,10 @@ func (u *unitCtx) stmt(level int) {
 	if level >= 3 && k >= 8 {
 		k = k % 8
 	}
+	if u.g.o.Wide && level < 3 && rapid.IntRange(0, 5).Draw(t, "wideStmt") == 0 {
+		u.wideStmt(level)
+		return
+	}
 	switch k {
 	case 0, 1, 2, 3, 4, 5, 6, 7:
 		u.simpleStmt(level)
@@ -345,6 +349,71 @@ func (u *unitCtx) stmt(level int) {
 		u.blockWithReturn(level+1, "")
 		u.scope = u.scope[:len(u.scope)-1]
 		w.S(u.ind(level) + "}")
+	}
+}
+
+// wideStmt writes one of the less common statement forms.
+func (u *unitCtx) wideStmt(level int) {
+	t := u.g.t
+	w := u.w
+	switch rapid.IntRange(0, 5).Draw(t, "wideStmtKind") {
+	case 0: // do-while
+		w.S("do {")
+		u.blockWithReturn(level+1, "")
+		w.S(u.ind(level) + "} while (")
+		u.cond(level)
+		w.S(");")
+	case 1: // try-with-resources: the resource is a variable of the try statement
+		c := u.collabFields()
+		if len(c) == 0 {
+			u.simpleStmt(level)
+			return
+		}
+		ci := rapid.SampledFrom(c).Draw(t, "resourceClass")
+		rv := u.freshLocal()
+		w.S("try (" + u.g.sigs[ci].name + " " + rv + " = ")
+		u.newExpr(level, 1, ci)
+		w.S(") {")
+		u.scope = append(u.scope, varInfo{name: rv, kind: "local", typ: u.g.sigs[ci].name, cls: ci})
+		u.blockWithReturn(level+1, "")
+		u.scope = u.scope[:len(u.scope)-1]
+		w.S(u.ind(level) + "}")
+	case 2: // synchronized block
+		w.S("synchronized (this) {")
+		u.blockWithReturn(level+1, "")
+		w.S(u.ind(level) + "}")
+	case 3: // throw
+		w.S("throw new IllegalStateException(")
+		line, col := w.Line(), w.Col()-len("IllegalStateException(")
+		u.event(Event{Kind: "new", Name: "IllegalStateException", Line: line, Col: col})
+		u.expr(level, 2)
+		w.S(");")
+	case 4: // several declarators in one declaration
+		c := u.collabFields()
+		if len(c) == 0 {
+			u.simpleStmt(level)
+			return
+		}
+		ci := rapid.SampledFrom(c).Draw(t, "multiDeclClass")
+		a, b := u.freshLocal(), ""
+		u.scope = append(u.scope, varInfo{name: a, kind: "local", typ: u.g.sigs[ci].name, cls: ci})
+		b = u.freshLocal()
+		u.scope = append(u.scope, varInfo{name: b, kind: "local", typ: u.g.sigs[ci].name, cls: ci})
+		w.S(u.g.sigs[ci].name + " " + a + " = null, " + b + " = null;")
+	default: // declaration without initializer, assigned later
+		c := u.collabFields()
+		if len(c) == 0 {
+			u.simpleStmt(level)
+			return
+		}
+		ci := rapid.SampledFrom(c).Draw(t, "lateInitClass")
+		a := u.freshLocal()
+		w.S(u.g.sigs[ci].name + " " + a + "; " + a + " = ")
+		u.pending = a
+		u.newExpr(level, 1, ci)
+		u.pending = ""
+		w.S(";")
+		u.scope = append(u.scope, varInfo{name: a, kind: "local", typ: u.g.sigs[ci].name, cls: ci})
 	}
 }
 
@@ -469,6 +538,27 @@ func (u *unitCtx) expr(level, depth int) {
 	k := rapid.IntRange(0, 9).Draw(t, "exprKind")
 	if depth >= 3 && k >= 5 {
 		k = k % 5
+	}
+	if u.g.o.Wide && depth < 3 && rapid.IntRange(0, 7).Draw(t, "wideExpr") == 0 {
+		switch rapid.IntRange(0, 2).Draw(t, "wideExprKind") {
+		case 0: // conditional expression
+			w.S("(")
+			u.cond(level)
+			w.S(" ? ")
+			u.expr(level, depth+1)
+			w.S(" : ")
+			u.expr(level, depth+1)
+			w.S(")")
+		case 1: // cast
+			w.S("((Object) ")
+			u.expr(level, depth+1)
+			w.S(")")
+		default: // string concatenation with a call
+			w.S("(\"" + u.strBody() + "\" + ")
+			u.callExpr(level, depth+1)
+			w.S(")")
+		}
+		return
 	}
 	switch k {
 	case 0:
@@ -599,6 +689,51 @@ func (u *unitCtx) callExpr(level, depth int) {
 		k = 0
 	}
 	isObj := func(v varInfo) bool { return v.cls >= 0 || v.ext }
+	if u.g.o.Wide && rapid.IntRange(0, 7).Draw(t, "wideCall") == 0 {
+		switch rapid.IntRange(0, 2).Draw(t, "wideCallKind") {
+		case 0: // call on a cast expression
+			if v, ok := u.anyVar(isObj); ok && v.cls >= 0 {
+				w.S("((" + u.g.sigs[v.cls].name + ") " + v.name + ").")
+				u.used[u.g.sigs[v.cls].name] = true
+				line, col := w.Line(), w.Col()
+				name, _ := u.calleeOf(v.cls)
+				w.S(name)
+				u.event(Event{Kind: "call", Name: name, Line: line, Col: col, Recv: "cast"})
+				u.args(level, depth, true)
+				return
+			}
+		case 1: // super call
+			w.S("super.")
+			line, col := w.Line(), w.Col()
+			name := rapid.SampledFrom([]string{"toString", "hashCode", "reset"}).Draw(t, "superCallee")
+			w.S(name)
+			u.event(Event{Kind: "call", Name: name, Line: line, Col: col, Recv: "super"})
+			w.S("()")
+			return
+		default: // a call whose argument is a lambda with a block body
+			if depth < 2 {
+				line, col := w.Line(), w.Col()
+				own := u.g.sigs[u.i]
+				name, target := "helper", ""
+				if len(own.methods) > 0 {
+					m := rapid.SampledFrom(own.methods).Draw(t, "ownMethod")
+					name, target = m.name, own.full()+"."+m.name
+				}
+				w.S(name)
+				u.event(Event{Kind: "call", Name: name, Line: line, Col: col, Recv: "implicit", Resolve: true, ExpPkg: own.pkg, ExpNode: own.name, Target: target})
+				u.lambdaN++
+				lv := fmt.Sprintf("lb%d", u.lambdaN)
+				w.S("(" + lv + " -> { ")
+				u.staticCall(level, 3)
+				w.S("; " + lv + ".")
+				l2, c2 := w.Line(), w.Col()
+				w.S("run")
+				u.event(Event{Kind: "call", Name: "run", Line: l2, Col: c2, Recv: "lambda"})
+				w.S("(); })")
+				return
+			}
+		}
+	}
 	switch k {
 	case 0, 1: // implicit receiver
 		name, target := "helper", ""
